@@ -106,7 +106,7 @@ func (c *wpCloud) Stop()                                                  {}
 type wpVM struct {
 	mtx       sync.Mutex
 	n         int
-	procs     map[string]bool // live crunch-run processes
+	procs     map[string]int // live crunch-run processes per container uuid
 	bootOK    bool
 	listOK    bool
 	broken    bool
@@ -140,8 +140,8 @@ func (vm *wpVM) Execute(env map[string]string, cmd string, stdin io.Reader) ([]b
 		ok := vm.listOK
 		var out strings.Builder
 		var us []string
-		for u, alive := range vm.procs {
-			if alive {
+		for u, cnt := range vm.procs {
+			if cnt > 0 {
 				us = append(us, u)
 			}
 		}
@@ -212,6 +212,8 @@ type wpH struct {
 	nextU   int
 	tags    map[string]int
 	allInsts map[int]*wpInst // every instance ever created (also after it left the cloud)
+	stuck   int          // != 0: an awaited effect did not arrive (code of OStuck)
+	disc    map[int]bool // instances whose processes the present pool has discovered (shown booting/idle/running)
 	desSeen map[int]int  // Destroy calls per instance at the previous observation
 	desBase map[int]int  // ... when the instance (re)appeared in Instances()
 	present map[int]bool
@@ -221,7 +223,7 @@ func (h *wpH) vm(n int) *wpVM {
 	if v, ok := h.vms[n]; ok {
 		return v
 	}
-	v := &wpVM{n: n, procs: map[string]bool{}, bootOK: false, listOK: true, killOK: map[string]bool{}, killed: map[string]int{},
+	v := &wpVM{n: n, procs: map[string]int{}, bootOK: false, listOK: true, killOK: map[string]bool{}, killed: map[string]int{},
 		listGate: make(chan struct{}), listArr: make(chan struct{}, 1), startGate: map[string]chan bool{}, startArr: make(chan string, 8)}
 	h.vms[n] = v
 	return v
@@ -273,8 +275,28 @@ func (h *wpH) closePool() {
 	}
 }
 
+// Watchdog.  Every awaited effect is one goroutine of the code under test that needs the pool mutex once and
+// a few microseconds of work (or one tick of a 1 ms ticker).  The Go runtime preempts running goroutines every
+// 10 ms, so even with the machine oversubscribed 50-fold such an effect arrives within a second; 20 s leaves
+// three more orders of magnitude.  An expiry is therefore reported as an observation of the case (OStuck: the
+// model predicts the effect, the implementation did not deliver it), not as a harness failure.
+const wpDeadline = 20 * time.Second
+
+var wpStuckCases int // after a few stuck cases the run stops generating (each costs wpDeadline)
+
+func (h *wpH) wait(code int, what string, cond func() bool) bool {
+	if h.stuck != 0 {
+		return false
+	}
+	if wpWait(what, cond) {
+		return true
+	}
+	h.stuck = code
+	return false
+}
+
 func wpWait(what string, cond func() bool) bool {
-	deadline := time.Now().Add(5 * time.Second)
+	deadline := time.Now().Add(wpDeadline)
 	for time.Now().Before(deadline) {
 		if cond() {
 			return true
@@ -327,7 +349,7 @@ func (h *wpH) settleDestroys() {
 	h.pool.mtx.Unlock()
 	for _, e := range exps {
 		e := e
-		wpWait("destroy", func() bool { return e.inst.nDestroys() > e.last })
+		h.wait(7, "destroy", func() bool { return e.inst.nDestroys() > e.last })
 	}
 }
 
@@ -389,15 +411,45 @@ func (h *wpH) observe(ret int64) string {
 			h.desSeen[n] = abs
 			des = abs - h.desBase[n]
 		}
+		if st := wpStateCode[iv.WorkerState]; st == 1 || st == 2 || st == 3 {
+			h.disc[n] = true
+		}
 		instS = append(instS, fmt.Sprintf("%09d|(%s, %s, %s, %s, %s)", n, gN(int64(n)), gN(int64(wpStateCode[iv.WorkerState])),
 			gN(int64(wpIBCode[iv.IdleBehavior])), gN(wpU(iv.LastContainerUUID)), gN(int64(des))))
 	}
 	h.present = cur
+	for n := range h.disc {
+		if !cur[n] {
+			delete(h.disc, n)
+		}
+	}
 	sort.Strings(instS)
 	for i := range instS {
 		instS[i] = instS[i][10:]
 	}
-	return fmt.Sprintf("Ob %s %s %s %s %s", gN(ret), gList(runS), gList(unS), gList(counts), gList(instS))
+	// environment: live crunch-run processes of the stub VMs, one entry per process
+	var liveS []string
+	var vmns []int
+	for n := range h.vms {
+		vmns = append(vmns, n)
+	}
+	sort.Ints(vmns)
+	for _, n := range vmns {
+		vm := h.vms[n]
+		vm.mtx.Lock()
+		var lu []string
+		for u, cnt := range vm.procs {
+			for k := 0; k < cnt; k++ {
+				lu = append(lu, u)
+			}
+		}
+		vm.mtx.Unlock()
+		sort.Strings(lu)
+		for _, u := range lu {
+			liveS = append(liveS, fmt.Sprintf("(%s, %s)", gN(int64(n)), gN(wpU(u))))
+		}
+	}
+	return fmt.Sprintf("Ob %s %s %s %s %s %s", gN(ret), gList(runS), gList(unS), gList(counts), gList(instS), gList(liveS))
 }
 
 func (h *wpH) emit(op string, ret int64) {
@@ -411,8 +463,8 @@ func (h *wpH) resp(vm *wpVM, gate bool) string {
 	vm.mtx.Lock()
 	defer vm.mtx.Unlock()
 	var us []string
-	for u, alive := range vm.procs {
-		if alive {
+	for u, cnt := range vm.procs {
+		if cnt > 0 {
 			us = append(us, u)
 		}
 	}
@@ -518,7 +570,7 @@ func (h *wpH) opProbeEnd(n int) {
 	vm.listGate <- struct{}{}
 	w := h.worker(n)
 	if w != nil {
-		wpWait("probe end", func() bool {
+		h.wait(6, "probe end", func() bool {
 			select {
 			case w.probing <- struct{}{}:
 				<-w.probing
@@ -541,13 +593,13 @@ func (h *wpH) opLands(u string, ok bool) {
 	ch := vm.startGate[u]
 	delete(vm.startGate, u)
 	if ok {
-		vm.procs[u] = true
+		vm.procs[u]++
 	}
 	vm.mtx.Unlock()
 	w := h.worker(n)
 	ch <- ok
 	if w != nil {
-		wpWait("lands", func() bool {
+		h.wait(3, "lands", func() bool {
 			h.pool.mtx.Lock()
 			defer h.pool.mtx.Unlock()
 			_, st := w.starting[u]
@@ -575,7 +627,7 @@ func (h *wpH) pickUUID() string {
 func wpScenario(t *testing.T, r *vRand, mode string) (string, []string, map[string]int, bool) {
 	h := &wpH{t: t, r: r, cloudS: &wpCloud{insts: map[int]*wpInst{}, next: 1}, vms: map[int]*wpVM{},
 		gated: map[string]int{}, pending: map[int]bool{}, started: map[string]int{}, killing: map[string]bool{}, tags: map[string]int{}, nextU: 1,
-		allInsts: map[int]*wpInst{}, desSeen: map[int]int{}, desBase: map[int]int{}, present: map[int]bool{}}
+		allInsts: map[int]*wpInst{}, desSeen: map[int]int{}, desBase: map[int]int{}, present: map[int]bool{}, disc: map[int]bool{}}
 	h.cloudS.h = h
 	nit := 1 + r.Intn(2)
 	for i := 0; i < nit; i++ {
@@ -595,8 +647,13 @@ func wpScenario(t *testing.T, r *vRand, mode string) (string, []string, map[stri
 			shortTerm = true
 			h.term = 15 * time.Millisecond
 		}
-	} else if r.Chance(1, 6) {
-		h.cfgNs[2] = ns // idle timeout expired: exercises shutdownIfIdle inside C14 sequences too
+	} else {
+		if r.Chance(1, 6) {
+			h.cfgNs[2] = ns // idle timeout expired: exercises shutdownIfIdle inside C14 sequences too
+		}
+		if r.Chance(1, 3) {
+			h.cfgNs[1] = ns // probe timeout expired: a failing probe shuts the instance down with its runners
+		}
 	}
 	cz := func(d time.Duration) string {
 		if d == ns {
@@ -620,7 +677,7 @@ func wpScenario(t *testing.T, r *vRand, mode string) (string, []string, map[stri
 		vm.bootOK = r.Chance(2, 3)
 		if r.Chance(1, 2) {
 			u := test.ContainerUUID(900 + inst.n)
-			vm.procs[u] = true
+			vm.procs[u] = 1
 			h.started[u] = inst.n
 		}
 		h.cloudS.next++
@@ -628,7 +685,179 @@ func wpScenario(t *testing.T, r *vRand, mode string) (string, []string, map[stri
 	h.doSync()
 	nops := 15 + r.Intn(45)
 	good := true
-	for k := 0; k < nops && good; k++ {
+	tagsDirected := h.tags
+	// StartContainer under the scheduler's precondition (never start what Running() reports) and the
+	// environment assumption A2/A3 of C14 (no process of this container is alive on an instance whose
+	// processes the pool has not discovered).  A live process on a DISCOVERED instance that Running() does not
+	// report is exactly the failure of C14: then the start is made and the specification sees it.
+	doStart := func(it int, u string) bool {
+		if _, g := h.gated[u]; g {
+			return false
+		}
+		if _, running := h.pool.Running()[u]; running {
+			return false
+		}
+		for n, vm := range h.vms {
+			vm.mtx.Lock()
+			alive := vm.procs[u] > 0
+			vm.mtx.Unlock()
+			if alive && !h.disc[n] {
+				return false
+			}
+		}
+		ok := h.pool.StartContainer(h.its[it], arvados.Container{UUID: u})
+		ret := int64(0)
+		if ok {
+			found := -1
+			good = h.wait(2, "start arrival", func() bool {
+				for n, vm := range h.vms {
+					select {
+					case uu := <-vm.startArr:
+						if uu == u {
+							found = n
+							return true
+						}
+					default:
+					}
+				}
+				return false
+			})
+			h.gated[u] = found
+			h.started[u] = found
+			ret = int64(found) + 1
+		}
+		h.emit(fmt.Sprintf("OStart %s %s", gN(int64(it)), gN(wpU(u))), ret)
+		return ok && good
+	}
+	doKill := func(u string) {
+		if _, g := h.gated[u]; g && shortTerm {
+			return
+		}
+		// was a Kill loop already started for this runner?  (rr.Kill is a no-op then)
+		already := false
+		h.pool.mtx.Lock()
+		for _, w := range h.pool.workers {
+			rr := w.running[u]
+			if rr == nil {
+				rr = w.starting[u]
+			}
+			if rr != nil {
+				already = rr.stopping
+				break
+			}
+		}
+		h.pool.mtx.Unlock()
+		ok := h.pool.KillContainer(u, "verif")
+		ret := int64(0)
+		if ok {
+			ret = 1
+			if !already || !shortTerm {
+				h.killing[u] = true
+			}
+		}
+		h.emit(fmt.Sprintf("OKill %s", gN(wpU(u))), ret)
+		if ok && shortTerm && !already {
+			n := h.started[u]
+			if _, g := h.gated[u]; g {
+				// the Kill loop may give up only on a runner; keep the sequence simple: land first
+				return
+			}
+			w := h.worker(n)
+			if w == nil {
+				return
+			}
+			good = h.wait(5, "giveup", func() bool {
+				h.pool.mtx.Lock()
+				defer h.pool.mtx.Unlock()
+				rr := w.running[u]
+				if rr == nil {
+					rr = w.starting[u]
+				}
+				return rr == nil || rr.givenup
+			})
+			time.Sleep(3 * time.Millisecond)
+			h.pool.mtx.Lock()
+			h.pool.mtx.Unlock()
+			h.emit(fmt.Sprintf("OGiveUp %s %s", gN(int64(n)), gN(wpU(u))), 0)
+			delete(h.killing, u)
+		}
+	}
+	doKillDelivered := func(u string) {
+		n := h.started[u]
+		w := h.worker(n)
+		if w == nil {
+			delete(h.killing, u)
+			return
+		}
+		h.pool.mtx.Lock()
+		_, inRunning := w.running[u]
+		_, inStarting := w.starting[u]
+		h.pool.mtx.Unlock()
+		if !inRunning && !inStarting {
+			delete(h.killing, u)
+			return
+		}
+		vm := h.vm(n)
+		vm.mtx.Lock()
+		before := vm.killed[u]
+		vm.killOK[u] = true
+		vm.mtx.Unlock()
+		good = h.wait(4, "kill delivered", func() bool {
+			vm.mtx.Lock()
+			k := vm.killed[u]
+			vm.mtx.Unlock()
+			if k <= before {
+				return false
+			}
+			if !inRunning {
+				return true
+			}
+			h.pool.mtx.Lock()
+			defer h.pool.mtx.Unlock()
+			_, still := w.running[u]
+			return !still
+		})
+		vm.mtx.Lock()
+		delete(vm.killOK, u)
+		vm.mtx.Unlock()
+		time.Sleep(2 * time.Millisecond) // a second success in flight finds nothing to close
+		if inRunning {
+			delete(h.killing, u)
+		}
+		h.emit(fmt.Sprintf("OKillDelivered %s %s", gN(int64(n)), gN(wpU(u))), 0)
+	}
+	doProbeWhole := func(n int) {
+		w := h.worker(n)
+		if w == nil || h.pending[n] {
+			return
+		}
+		rs := h.resp(h.vm(n), false)
+		w.ProbeAndUpdate()
+		h.emit(fmt.Sprintf("OProbe %s %s", gN(int64(n)), rs), 0)
+	}
+	doProbeBegin := func(n int) {
+		w := h.worker(n)
+		if w == nil || h.pending[n] {
+			return
+		}
+		vm := h.vm(n)
+		rs := h.resp(vm, true)
+		done := make(chan struct{})
+		go func() { w.ProbeAndUpdate(); close(done) }()
+		select {
+		case <-vm.listArr:
+			h.pending[n] = true
+		case <-done:
+			vm.mtx.Lock()
+			vm.gateList = false
+			vm.mtx.Unlock()
+		case <-time.After(wpDeadline):
+			h.stuck = 6
+			good = false
+		}
+		h.emit(fmt.Sprintf("OProbeBegin %s %s", gN(int64(n)), rs), 0)
+	}
+	for k := 0; k < nops && good && h.stuck == 0; k++ {
 		known := h.knownInstances()
 		x := r.Intn(100)
 		switch {
@@ -645,7 +874,7 @@ func wpScenario(t *testing.T, r *vRand, mode string) (string, []string, map[stri
 			newid := h.cloudS.next
 			h.cloudS.mtx.Unlock()
 			ret := h.pool.Create(h.its[it])
-			good = wpWait("create", func() bool {
+			good = h.wait(1, "create", func() bool {
 				h.pool.mtx.Lock()
 				defer h.pool.mtx.Unlock()
 				return len(h.pool.creating) == 0
@@ -687,9 +916,13 @@ func wpScenario(t *testing.T, r *vRand, mode string) (string, []string, map[stri
 			vm.broken = r.Chance(1, 12)
 			vm.stale = r.Chance(1, 8)
 			if r.Chance(1, 4) { // a process ends by itself
+				var pu []string
 				for u := range vm.procs {
-					delete(vm.procs, u)
-					break
+					pu = append(pu, u)
+				}
+				sort.Strings(pu)
+				if len(pu) > 0 {
+					delete(vm.procs, pu[0])
 				}
 			}
 			vm.mtx.Unlock()
@@ -698,25 +931,9 @@ func wpScenario(t *testing.T, r *vRand, mode string) (string, []string, map[stri
 				continue
 			}
 			if r.Chance(1, 4) {
-				// split probe: other operations happen while crunch-run --list is outstanding
-				rs := h.resp(vm, true)
-				done := make(chan struct{})
-				go func() { w.ProbeAndUpdate(); close(done) }()
-				select {
-				case <-vm.listArr:
-					h.pending[n] = true
-				case <-done:
-					vm.mtx.Lock()
-					vm.gateList = false
-					vm.mtx.Unlock()
-				case <-time.After(5 * time.Second):
-					good = false
-				}
-				h.emit(fmt.Sprintf("OProbeBegin %s %s", gN(int64(n)), rs), 0)
+				doProbeBegin(n) // split probe: other operations happen while crunch-run --list is outstanding
 			} else {
-				rs := h.resp(vm, false)
-				w.ProbeAndUpdate()
-				h.emit(fmt.Sprintf("OProbe %s %s", gN(int64(n)), rs), 0)
+				doProbeWhole(n)
 			}
 		case x < 58:
 			it := r.Intn(nit)
@@ -730,42 +947,57 @@ func wpScenario(t *testing.T, r *vRand, mode string) (string, []string, map[stri
 				u = test.ContainerUUID(h.nextU)
 				h.nextU++
 			}
-			// the scheduler's precondition: never start what Running() reports; environment assumption of
-			// C14: no process of this container is alive on an instance the pool has not probed yet
-			if _, running := h.pool.Running()[u]; running {
+			if !doStart(it, u) {
 				continue
 			}
-			alive := false
-			for _, vm := range h.vms {
+			n := h.gated[u]
+			vm := h.vm(n)
+			switch d := r.Intn(10); {
+			case d == 0:
+				// directed: a probe starts after StartContainer, its crunch-run --list is answered before the
+				// process exists, the start command returns, then the answer is applied; afterwards the
+				// scheduler's usual follow-up for a container whose process "exited" (kill, forget, start again)
+				tagsDirected["directed=stale-probe"]++
 				vm.mtx.Lock()
-				alive = alive || vm.procs[u]
+				vm.listOK, vm.broken, vm.stale = true, false, false
 				vm.mtx.Unlock()
-			}
-			if alive {
-				continue
-			}
-			ok := h.pool.StartContainer(h.its[it], arvados.Container{UUID: u})
-			ret := int64(0)
-			if ok {
-				found := -1
-				good = wpWait("start arrival", func() bool {
-					for n, vm := range h.vms {
-						select {
-						case uu := <-vm.startArr:
-							if uu == u {
-								found = n
-								return true
-							}
-						default:
-						}
+				doProbeBegin(n)
+				if _, g := h.gated[u]; g && good {
+					h.opLands(u, true)
+				}
+				if h.pending[n] && good && h.stuck == 0 {
+					h.opProbeEnd(n)
+				}
+				if good && h.stuck == 0 {
+					doKill(u)
+					h.pool.ForgetContainer(u)
+					h.emit(fmt.Sprintf("OForget %s", gN(wpU(u))), 0)
+					if doStart(it, u) {
+						h.opLands(u, true)
 					}
-					return false
-				})
-				h.gated[u] = found
-				h.started[u] = found
-				ret = int64(found) + 1
+				}
+			case d == 1 && h.cfgNs[1] == time.Nanosecond:
+				// directed: the instance is shut down (probe timeout) while the container still runs on it, the
+				// cloud does not destroy it, then the container is killed successfully, then more work arrives
+				tagsDirected["directed=shutdown-with-runner"]++
+				h.opLands(u, true)
+				vm.mtx.Lock()
+				vm.listOK = false
+				vm.mtx.Unlock()
+				doProbeWhole(n)
+				vm.mtx.Lock()
+				vm.listOK = true
+				vm.mtx.Unlock()
+				if good && h.stuck == 0 {
+					doKill(u)
+					if h.killing[u] {
+						doKillDelivered(u)
+					}
+					nu := test.ContainerUUID(h.nextU)
+					h.nextU++
+					doStart(it, nu)
+				}
 			}
-			h.emit(fmt.Sprintf("OStart %s %s", gN(int64(it)), gN(wpU(u))), ret)
 		case x < 68:
 			var us []string
 			for u := range h.gated {
@@ -781,57 +1013,7 @@ func wpScenario(t *testing.T, r *vRand, mode string) (string, []string, map[stri
 			if u == "" {
 				continue
 			}
-			if _, g := h.gated[u]; g && shortTerm {
-				continue
-			}
-			// was a Kill loop already started for this runner?  (rr.Kill is a no-op then)
-			already := false
-			h.pool.mtx.Lock()
-			for _, w := range h.pool.workers {
-				rr := w.running[u]
-				if rr == nil {
-					rr = w.starting[u]
-				}
-				if rr != nil {
-					already = rr.stopping
-					break
-				}
-			}
-			h.pool.mtx.Unlock()
-			ok := h.pool.KillContainer(u, "verif")
-			ret := int64(0)
-			if ok {
-				ret = 1
-				if !already || !shortTerm {
-					h.killing[u] = true
-				}
-			}
-			h.emit(fmt.Sprintf("OKill %s", gN(wpU(u))), ret)
-			if ok && shortTerm && !already {
-				n := h.started[u]
-				if _, g := h.gated[u]; g {
-					// the Kill loop may give up only on a runner; keep the sequence simple: land first
-					continue
-				}
-				w := h.worker(n)
-				if w == nil {
-					continue
-				}
-				good = wpWait("giveup", func() bool {
-					h.pool.mtx.Lock()
-					defer h.pool.mtx.Unlock()
-					rr := w.running[u]
-					if rr == nil {
-						rr = w.starting[u]
-					}
-					return rr == nil || rr.givenup
-				})
-				time.Sleep(3 * time.Millisecond)
-				h.pool.mtx.Lock()
-				h.pool.mtx.Unlock()
-				h.emit(fmt.Sprintf("OGiveUp %s %s", gN(int64(n)), gN(wpU(u))), 0)
-				delete(h.killing, u)
-			}
+			doKill(u)
 		case x < 82:
 			var us []string
 			for u := range h.killing {
@@ -841,49 +1023,7 @@ func wpScenario(t *testing.T, r *vRand, mode string) (string, []string, map[stri
 				continue
 			}
 			sort.Strings(us)
-			u := us[r.Intn(len(us))]
-			n := h.started[u]
-			w := h.worker(n)
-			if w == nil {
-				delete(h.killing, u)
-				continue
-			}
-			h.pool.mtx.Lock()
-			_, inRunning := w.running[u]
-			_, inStarting := w.starting[u]
-			h.pool.mtx.Unlock()
-			if !inRunning && !inStarting {
-				delete(h.killing, u)
-				continue
-			}
-			vm := h.vm(n)
-			vm.mtx.Lock()
-			before := vm.killed[u]
-			vm.killOK[u] = true
-			vm.mtx.Unlock()
-			good = wpWait("kill delivered", func() bool {
-				vm.mtx.Lock()
-				k := vm.killed[u]
-				vm.mtx.Unlock()
-				if k <= before {
-					return false
-				}
-				if !inRunning {
-					return true
-				}
-				h.pool.mtx.Lock()
-				defer h.pool.mtx.Unlock()
-				_, still := w.running[u]
-				return !still
-			})
-			vm.mtx.Lock()
-			delete(vm.killOK, u)
-			vm.mtx.Unlock()
-			time.Sleep(2 * time.Millisecond) // a second success in flight finds nothing to close
-			if inRunning {
-				delete(h.killing, u)
-			}
-			h.emit(fmt.Sprintf("OKillDelivered %s %s", gN(int64(n)), gN(wpU(u))), 0)
+			doKillDelivered(us[r.Intn(len(us))])
 		case x < 85:
 			u := h.pickUUID()
 			if u == "" {
@@ -911,7 +1051,7 @@ func wpScenario(t *testing.T, r *vRand, mode string) (string, []string, map[stri
 			ok := h.pool.Shutdown(h.its[it])
 			chosen := 0
 			if ok {
-				good = wpWait("shutdown destroy", func() bool {
+				good = h.wait(7, "shutdown destroy", func() bool {
 					for n, inst := range insts {
 						if inst.nDestroys() > des[n] {
 							chosen = n
@@ -969,15 +1109,28 @@ func wpScenario(t *testing.T, r *vRand, mode string) (string, []string, map[stri
 				h.closePool()
 				h.killing = map[string]bool{}
 				h.present = map[int]bool{}
+				h.disc = map[int]bool{}
 				h.newPool()
 				h.emit("ORestart", 0)
 				h.doSync()
 			}
 		}
 	}
+	if h.stuck != 0 {
+		// STUCK: an effect that the last operation must have did not arrive within the deadline
+		code := h.stuck
+		h.stuck = -1 // no further waiting
+		h.emit(fmt.Sprintf("OStuck %s", gN(int64(code))), 0)
+		h.pool.Stop()
+		return fmt.Sprintf("mkwp %s %s", cfg, gList(h.steps)), h.descs, h.tags, false
+	}
 	h.finishPending()
 	h.closePool()
-	return fmt.Sprintf("mkwp %s %s", cfg, gList(h.steps)), h.descs, h.tags, good
+	if h.stuck != 0 {
+		h.emit(fmt.Sprintf("OStuck %s", gN(int64(h.stuck))), 0)
+		return fmt.Sprintf("mkwp %s %s", cfg, gList(h.steps)), h.descs, h.tags, false
+	}
+	return fmt.Sprintf("mkwp %s %s", cfg, gList(h.steps)), h.descs, h.tags, true
 }
 
 func TestVerifC14WP(t *testing.T) {
@@ -1000,7 +1153,8 @@ func TestVerifC14WP(t *testing.T) {
 		r := vCaseRand(seed, i)
 		term, descs, tags, good := wpScenario(t, r, mode)
 		if !good {
-			t.Errorf("case %d: an asynchronous effect did not arrive (harness watchdog)", i)
+			tags["op=OStuck"] = 1
+			wpStuckCases++
 		}
 		var tl []string
 		for k, c := range tags {
@@ -1012,6 +1166,11 @@ func TestVerifC14WP(t *testing.T) {
 		}
 		sort.Strings(tl)
 		cs.Add(i, term, map[string]interface{}{"steps": descs}, tags["op=OStart"] >= 1, tl...)
+		if wpStuckCases >= 2 {
+			// two failing inputs of this kind are enough; every further one would cost wpDeadline again
+			t.Logf("generation stopped after case %d: %d cases ended with a STUCK observation", i, wpStuckCases)
+			break
+		}
 	}
 	cs.Write()
 }
